@@ -19,7 +19,8 @@ T_IARRAYS = ['supst_b_index']
 T_FDICTS = ['supst_b', 'supst_sb']
 T_LOCALS = [('sat', 'a')]
 I_SCALARS = ['tc_k', 'tcriticalk', 'tcritical', 'pcritical', 'pstar4']
-I_FARRAYS = ['nr4', 'nr23']
+I_SCALARS += ['rconst', 'pstar1', 'tstar1', 'pstar2', 'tstar2']
+I_FARRAYS = ['nr4', 'nr23', 'nr1', 'n0r2', 'nr2']
 
 # (Coq name, module, function, traced args, plain args, abstract callees)
 TRACES = [
@@ -38,11 +39,14 @@ TRACES = [
     ('region97', 'i', 'region', 2, (), ('sat', 'b23p')),
     ('sat97', 'i', 'sat', 1, (), ()),
     ('b23p97', 'i', 'b23p', 1, (), ()),
+    ('cowat97', 'i', 'cowat', 2, (), ()),
+    ('supst97', 'i', 'supst', 2, (), ()),
 ]
 # AST comparison cross-check: function -> the traced variants whose decisions must add up to it
 CROSS = {('t', 'cowat'): ['cowat_off', 'cowat_on'], ('t', 'supst'): ['supst_off', 'supst_on'],
          ('t', 'sat'): ['sat_off', 'sat_on'], ('t', 'tsat'): ['tsat_off', 'tsat_on'],
-         ('t', 'region'): ['region67'], ('i', 'region'): ['region97'], ('i', 'sat'): ['sat97']}
+         ('t', 'region'): ['region67'], ('i', 'region'): ['region97'], ('i', 'sat'): ['sat97'],
+         ('i', 'cowat'): ['cowat97'], ('i', 'supst'): ['supst97']}
 CASES_PER_FILE = 250
 
 
@@ -73,7 +77,7 @@ def translate(ctx):
         ctx.gen('GenThermo', text)
         ctabs = {'t': {'cowat_a': len(tt.farray('cowat_a')), 'cowat_sa': len(tt.farray('cowat_sa')),
                        'supst_b': [k for k, _ in tt.fdict('supst_b')], 'supst_sb': [k for k, _ in tt.fdict('supst_sb')]},
-                 'i': {'nr4': len(ti.farray('nr4')), 'nr23': len(ti.farray('nr23'))}}
+                 'i': {a: len(ti.farray(a)) for a in I_FARRAYS}}
     except TB.Refusal as e:
         ctx.refusal('tables(t2thermo.py, IAPWS97.py)', e)
         return None
@@ -244,6 +248,8 @@ def gen_inputs(T, I, ctx, scale):
         s1.append([h, rng.choice([0.1e6, 5e6, rng.uniform(0.1e6, 5e6)])])
         s2.append([h, rng.choice([0.1e6, 5e6, rng.uniform(0.1e6, 5e6)]), rng.choice([0.1e6, 5e6, rng.uniform(0.1e6, 5e6)])])
     cs['ssf1'], cs['ssf2'] = s1, s2
+    cs['cowat97'] = [list(x) for x in liq[:150 * scale]] + [[350.0, 100e6], [up(350.0), 1e7], [20.0, up(100e6)]]
+    cs['supst97'] = [list(x) for x in stm[:150 * scale]] + [[800.0, 100e6], [up(1000.0), 1e5]]
     return cs
 
 
